@@ -88,7 +88,7 @@ def _check_labels(sh, kind, case, data, thr, conn8, labs, n_ret, want, n_want):
         if not np.array_equal(l0, l):
             sh.violation("%s:poison-dependent" % kind, case, {"labels_a": l0, "labels_b": l})
             return False
-    bg = ~(data > thr)
+    bg = ~(data > np.float32(thr))          # the kernels take the threshold as a float32
     if not np.array_equal(l0 == 0, bg):
         sh.violation("%s:background-mismatch" % kind, case, {"labels": l0})
         return False
@@ -167,24 +167,30 @@ def _run_dense(desc):
 
 
 # --------------------------------------------------------------------------------------------- sparse
-def _sparse_case(sh, cI, sf, tern, shp, collect=False):
+SPARSE_VALS = ((1.0, 2.0, 1.5),
+               # a threshold that is not a float32 number: the listed-but-below pixels hold exactly the float32 it rounds to (0.1 ->
+               # 0.100000001...), which is NOT above the threshold for the dense kernel, the splat kernel and the sparse kernel alike
+               (float(np.float32(0.1)), 0.2, 0.1))
+
+
+def _sparse_case(sh, cI, sf, tern, shp, collect=False, vals=SPARSE_VALS[0]):
     """tern: 2-D array over {0 absent, 1 listed below threshold, 2 above}."""
-    thr = 1.5
+    v_lo, v_hi, thr = vals
     listed = tern > 0
     if not listed.any():
         return None
     ii, jj = np.nonzero(listed)          # row-major sorted
-    v = np.where(tern[ii, jj] == 2, 2.0, 1.0).astype(np.float32)
+    v = np.where(tern[ii, jj] == 2, v_hi, v_lo).astype(np.float32)
     i16 = ii.astype(np.uint16)
     j16 = jj.astype(np.uint16)
     mask = tern == 2
-    case = {"kind": "sparse", "shape": list(shp), "tern": tern.tolist()}
+    case = {"kind": "sparse", "shape": list(shp), "tern": tern.tolist(), "values": list(vals)}
     want_img, n_want = O.flood_components(mask, True)
     w2, n2 = O.scipy_components(mask, True)
     if n2 != n_want or not np.array_equal(O.canon_labels(w2), O.canon_labels(want_img)):
         raise RuntimeError("oracles disagree on %r" % (case,))
     want = O.canon_labels(want_img[ii, jj])
-    above = v > thr
+    above = v > np.float32(thr)
     results = {}
     # 1. sparse kernel, two poisons
     labs, ns_ = [], []
@@ -244,22 +250,22 @@ def _sparse_case(sh, cI, sf, tern, shp, collect=False):
             if ns != wn or not np.array_equal(O.canon_labels(sub.pixels["connectedpixels"]), wl):
                 sh.violation("sparseframe.sparse_connected_pixels[history: label, mask(), label the sub-frame]:partition", case,
                              {"labels": sub.pixels["connectedpixels"], "n": ns, "expected_n": wn})
-        other = np.where(v > thr, 1.0, 2.0).astype(np.float32)
+        other = np.where(v > np.float32(thr), v_lo, v_hi).astype(np.float32)
         fr.set_pixels("other", other)
         no = sf.sparse_connected_pixels(fr, data_name="other", threshold=thr)
         wl, wn = expect(listed & ~mask, ii, jj)
         if no != wn or not np.array_equal(O.canon_labels(fr.pixels["connectedpixels"]), wl):
             sh.violation("sparseframe.sparse_connected_pixels[history: label, label another pixel array]:partition", case,
                          {"labels": fr.pixels["connectedpixels"], "n": no, "expected_n": wn})
-        k0 = int(np.nonzero(v > thr)[0][0])
-        fr.pixels["intensity"][k0] = 1.0
+        k0 = int(np.nonzero(v > np.float32(thr))[0][0])
+        fr.pixels["intensity"][k0] = v_lo
         nc = sf.sparse_connected_pixels(fr, threshold=thr)
         m3 = mask.copy(); m3[ii[k0], jj[k0]] = False
         wl, wn = expect(m3, ii, jj)
         if nc != wn or not np.array_equal(O.canon_labels(fr.pixels["connectedpixels"]), wl):
             sh.violation("sparseframe.sparse_connected_pixels[history: label, pixel lowered in place, label]:partition", case,
                          {"labels": fr.pixels["connectedpixels"], "n": nc, "expected_n": wn})
-        v[k0] = 2.0 if fr.pixels["intensity"] is v else v[k0]
+        v[k0] = v_hi if fr.pixels["intensity"] is v else v[k0]
     sh.evaluations += 1
     seeds = O.n_seeds(mask, True)
     if n_want >= 2 or seeds > n_want:
@@ -276,6 +282,7 @@ def _run_sparse(desc):
     pw = 3 ** np.arange(n)
     for x in range(lo, hi):
         tern = ((x // pw) % 3).reshape(shp)
+        _sparse_case(sh, cI, sf, tern, shp, vals=SPARSE_VALS[1])
         c = _sparse_case(sh, cI, sf, tern, shp)
         if x == lo + (hi - lo) // 2 and c is not None:
             sh.sample(c)
@@ -617,7 +624,7 @@ def replay(case):
         _dense_case(sh, cI, li, np.array(case["mask"], bool), shp, case["vt"], bool(case["conn8"]))
     elif case["kind"] == "sparse":
         shp = tuple(case["shape"])
-        _sparse_case(sh, cI, sf, np.array(case["tern"]), shp)
+        _sparse_case(sh, cI, sf, np.array(case["tern"]), shp, vals=tuple(case.get("values", SPARSE_VALS[0])))
     else:
         shp = tuple(case["shape"])
         if str(case.get("gen", "")).startswith("comb:teeth="):
